@@ -18,6 +18,8 @@ pub struct SymGraph<W = (), Ty = petgraph::Directed, N = ()> {
     /// weight per position pair (row-major n*n); for undirected use (min,max)
     pub weights: Vec<W>,
     pub nw: Vec<N>,
+    /// multigraph mode: each present pair may be doubled (second variable `<prefix>m_i_j`); iterators yield it twice
+    pub multi: bool,
     pub ty: PhantomData<Ty>,
 }
 
@@ -36,6 +38,7 @@ impl<Ty: EdgeType> SymGraph<(), Ty> {
             prefix: prefix.to_string(),
             weights: vec![(); n * n],
             nw: vec![(); n],
+            multi: false,
             ty: PhantomData,
         };
         for i in 0..n {
@@ -61,6 +64,34 @@ impl<W, Ty, N> SymGraph<W, Ty, N> {
     pub fn var(&self, i: usize, j: usize) -> String {
         let (i, j) = if !self.directed && j < i { (j, i) } else { (i, j) };
         format!("{}_{}_{}", self.prefix, i, j)
+    }
+    /// switch to multigraph mode (declares the doubling variables; call during setup)
+    pub fn make_multi(mut self) -> Self {
+        let n = self.n();
+        for i in 0..n {
+            for j in 0..n {
+                if !self.directed && j < i {
+                    continue;
+                }
+                declare(&self.mvar(i, j), "Bool");
+            }
+        }
+        self.multi = true;
+        self
+    }
+    pub fn mvar(&self, i: usize, j: usize) -> String {
+        let (i, j) = if !self.directed && j < i { (j, i) } else { (i, j) };
+        format!("{}m_{}_{}", self.prefix, i, j)
+    }
+    /// number of parallel copies of the pair (0, 1 or 2), deciding lazily
+    pub fn mult_pos(&self, i: usize, j: usize) -> usize {
+        if !self.has_pos(i, j) {
+            0
+        } else if self.multi && decide(&self.mvar(i, j)) {
+            2
+        } else {
+            1
+        }
     }
     pub fn pos(&self, id: usize) -> usize {
         self.ids.iter().position(|&x| x == id).expect("SymGraph: unknown node id")
@@ -88,11 +119,11 @@ impl<W, Ty, N> SymGraph<W, Ty, N> {
         N: Clone,
     {
         assert_eq!(weights.len(), self.n() * self.n());
-        SymGraph { ids: self.ids.clone(), directed: self.directed, bound: self.bound, prefix: self.prefix.clone(), weights, nw: self.nw.clone(), ty: PhantomData }
+        SymGraph { ids: self.ids.clone(), directed: self.directed, bound: self.bound, prefix: self.prefix.clone(), weights, nw: self.nw.clone(), multi: self.multi, ty: PhantomData }
     }
     pub fn with_node_weights<N2>(self, nw: Vec<N2>) -> SymGraph<W, Ty, N2> {
         assert_eq!(nw.len(), self.n());
-        SymGraph { ids: self.ids, directed: self.directed, bound: self.bound, prefix: self.prefix, weights: self.weights, nw, ty: PhantomData }
+        SymGraph { ids: self.ids, directed: self.directed, bound: self.bound, prefix: self.prefix, weights: self.weights, nw, multi: self.multi, ty: PhantomData }
     }
     fn wref(&self, i: usize, j: usize) -> &W {
         let (i, j) = if !self.directed && j < i { (j, i) } else { (i, j) };
@@ -226,18 +257,25 @@ pub struct SNeighbors<'a, W, Ty, N = ()> {
     i: usize,
     j: usize,
     dir: Direction,
+    again: Option<usize>,
 }
 impl<'a, W, Ty, N> Iterator for SNeighbors<'a, W, Ty, N> {
     type Item = usize;
     fn next(&mut self) -> Option<usize> {
+        if let Some(x) = self.again.take() {
+            return Some(x);
+        }
         while self.j < self.g.n() {
             let j = self.j;
             self.j += 1;
-            let present = match (self.g.directed, self.dir) {
-                (true, Direction::Incoming) => self.g.has_pos(j, self.i),
-                _ => self.g.has_pos(self.i, j),
+            let copies = match (self.g.directed, self.dir) {
+                (true, Direction::Incoming) => self.g.mult_pos(j, self.i),
+                _ => self.g.mult_pos(self.i, j),
             };
-            if present {
+            if copies >= 1 {
+                if copies == 2 {
+                    self.again = Some(self.g.ids[j]);
+                }
                 return Some(self.g.ids[j]);
             }
         }
@@ -309,13 +347,13 @@ impl<'a, W, Ty, N> Iterator for SAllEdges<'a, W, Ty, N> {
 impl<'a, W, Ty: EdgeType, N> IntoNeighbors for &'a SymGraph<W, Ty, N> {
     type Neighbors = SNeighbors<'a, W, Ty, N>;
     fn neighbors(self, a: usize) -> SNeighbors<'a, W, Ty, N> {
-        { let (i, j) = self.start(a); SNeighbors { g: self, i, j, dir: Direction::Outgoing } }
+        { let (i, j) = self.start(a); SNeighbors { g: self, i, j, dir: Direction::Outgoing, again: None } }
     }
 }
 impl<'a, W, Ty: EdgeType, N> IntoNeighborsDirected for &'a SymGraph<W, Ty, N> {
     type NeighborsDirected = SNeighbors<'a, W, Ty, N>;
     fn neighbors_directed(self, a: usize, d: Direction) -> SNeighbors<'a, W, Ty, N> {
-        { let (i, j) = self.start(a); SNeighbors { g: self, i, j, dir: d } }
+        { let (i, j) = self.start(a); SNeighbors { g: self, i, j, dir: d, again: None } }
     }
 }
 impl<'a, W, Ty: EdgeType, N> IntoEdgeReferences for &'a SymGraph<W, Ty, N> {
